@@ -17,7 +17,10 @@ Operations: `new`, `item v p`, `merge i j`, `splitat i k`, `splitby i lt|le|gt|g
 `insert i k v p`, `remove i k`, `first i`, `last i`, `collect i`, `size i`, `agg i`, `tag i m…`, `drop i`,
 and the operations that RE-USE what the API returned: `move i k j pos p` (`remove_at` + `insert_at` of the
 returned item), `take i k p` (`remove_at` + `from_item`), `dup i first|last|collect p` (clone of the only
-element), `collect2 i j` (`collect_into` of two treaps into one vector).
+element), `collect2 i j` (`collect_into` of two treaps into one vector),
+and the operations that hand `insert_at` an item CARRYING A PENDING MODIFICATION: `inserttag i k v p m…`
+(`Item::new(v)` + `modify(m)` + `insert_at`), `moveroot i take|clone j pos p` (the item at the root of the
+one-element treap `i`, read through the public `root` field, goes to `ts[j].insert_at(pos, it)`).
 
 Items: `sum`, `aff`, and `key` (an item that relies on the default `update`/`push` and has no size: only
 `new item merge splitby first last collect collect2 size dup drop` exist for it; its sizes are node counts).
@@ -133,6 +136,15 @@ def parseOp {G M : Type} (io : ItemIO G M) (pm k : Nat) (toks : List String) : O
     match parseNat? i, parseNat? j with
     | some i, some j => some (.collect2 i j, k)
     | _, _ => none
+  | "inserttag" :: i :: n :: v :: p :: rest =>
+    match parseNat? i, parseNat? n, parseInt? v, parsePrio pm k p, io.parseTag rest with
+    | some i, some n, some v, some (p, k'), some m => some (.insertTag i n v m p, k')
+    | _, _, _, _, _ => none
+  | ["moveroot", i, w, j, pos, p] =>
+    let w? : Option Nat := if w = "take" then some 0 else if w = "clone" then some 1 else none
+    match parseNat? i, w?, parseNat? j, parseNat? pos, parsePrio pm k p with
+    | some i, some w, some j, some pos, some (p, k') => some (.moveRoot i w j pos p, k')
+    | _, _, _, _, _ => none
   | _ => none
 
 def parseOps {G M : Type} (io : ItemIO G M) (pm : Nat) : Nat → List String → Option (List (Op Int M Int))
